@@ -37,6 +37,13 @@ Definition is_sign (c : N) : bool := (c =? 43) || (c =? 45).
 (* the byte class do_skip_number keeps scanning over *)
 Definition numclass (c : N) : bool := is_digit c || (c =? 46) || is_exp c || is_sign c.
 
+(* hexadecimal digit / single-character escapes of RFC 8259 section 7 *)
+Definition is_hex (c : N) : bool :=
+  is_digit c || ((65 <=? c) && (c <=? 70)) || ((97 <=? c) && (c <=? 102)).
+
+Definition simple_escape (c : N) : bool :=
+  (c =? 34) || (c =? 92) || (c =? 47) || (c =? 98) || (c =? 102) || (c =? 110) || (c =? 114) || (c =? 116).
+
 Definition all_ws (w : list N) : Prop := forallb isspace w = true.
 
 Fixpoint drop_ws (s : list N) : list N :=
